@@ -19,8 +19,12 @@ package main
 import (
 	"fmt"
 	"go/ast"
+	"go/parser"
 	"go/token"
 	"go/types"
+	"os"
+	"path/filepath"
+	"sort"
 	"strings"
 )
 
@@ -471,6 +475,78 @@ func c07cUses(fd *ast.FuncDecl, skip map[ast.Node]bool) []string {
 	return out
 }
 
+// c07cOtherShrinks: every recognised `if COND { Free; Alloc }` on c.readBuffer in the other functions of connection.go
+// (the netpoll event loop), and every Free / Alloc / Reset / Drain / Cut / Read* call on a `readBuffer` field anywhere in
+// the non-test files of pkg/network that is NOT inside a recognised statement (or is doRead's ReadOnce).
+func c07cOtherShrinks(f *ast.File, loop *ast.FuncDecl) ([]*c07cShrink, []string, error) {
+	var shrinks []*c07cShrink
+	for _, d := range f.Decls {
+		fd, ok := d.(*ast.FuncDecl)
+		if !ok || fd == loop || fd.Body == nil {
+			continue
+		}
+		ast.Inspect(fd.Body, func(n ast.Node) bool {
+			if x, ok := n.(*ast.IfStmt); ok {
+				if sh, err := c07cShrinkIf(x); err == nil {
+					shrinks = append(shrinks, sh)
+					return false
+				}
+			}
+			return true
+		})
+	}
+	pkgs, err := parser.ParseDir(fset, filepath.Join(repo, "pkg/network"), func(fi os.FileInfo) bool {
+		return !strings.HasSuffix(fi.Name(), "_test.go")
+	}, 0)
+	if err != nil {
+		return nil, nil, err
+	}
+	var stray []string
+	for _, p := range pkgs {
+		var names []string
+		for n := range p.Files {
+			names = append(names, n)
+		}
+		sort.Strings(names)
+		for _, n := range names {
+			for _, d := range p.Files[n].Decls {
+				fd, ok := d.(*ast.FuncDecl)
+				if !ok || fd.Body == nil {
+					continue
+				}
+				ast.Inspect(fd.Body, func(m ast.Node) bool {
+					if x, ok := m.(*ast.IfStmt); ok {
+						if _, err := c07cShrinkIf(x); err == nil {
+							return false
+						}
+					}
+					ce, ok := m.(*ast.CallExpr)
+					if !ok {
+						return true
+					}
+					se, ok := ce.Fun.(*ast.SelectorExpr)
+					if !ok {
+						return true
+					}
+					in, ok := se.X.(*ast.SelectorExpr)
+					if !ok || in.Sel.Name != "readBuffer" {
+						return true
+					}
+					switch se.Sel.Name {
+					case "Free", "Alloc", "Reset", "Drain", "Cut", "Read", "ReadByte", "ReadOnce", "ReadFrom", "Restore", "SetEOF":
+						if se.Sel.Name == "ReadOnce" && fd.Name.Name == "doRead" {
+							return true
+						}
+						stray = append(stray, filepath.Base(n)+":"+fd.Name.Name+":"+se.Sel.Name)
+					}
+					return true
+				})
+			}
+		}
+	}
+	return shrinks, stray, nil
+}
+
 func genC07Conn() (string, error) {
 	f, err := parse(c07cFile)
 	if err != nil {
@@ -515,6 +591,10 @@ func genC07Conn() (string, error) {
 		}
 		return true
 	})
+	others, stray, err := c07cOtherShrinks(f, loop)
+	if err != nil {
+		return "", err
+	}
 	var uses []string
 	for _, fd := range []*ast.FuncDecl{loop, dr, or} {
 		uses = append(uses, c07cUses(fd, skip)...)
@@ -536,6 +616,20 @@ func genC07Conn() (string, error) {
 	}
 	s += "/-- startReadLoop, `doRead` returned a timeout: these re-allocations in source order, then `continue`. -/\n"
 	s += "def timeoutShrinks : List Shrink := [" + strings.Join(names, ", ") + "]\n\n"
+	var onames []string
+	for i, sh := range others {
+		s += fmt.Sprintf("def netpollShrinkCond%d (network : String) (allocated : Bool) (len cap dflt : Int) : Bool :=\n  %s\n", i, sh.cond)
+		s += fmt.Sprintf("def netpollShrinkSize%d (dflt : Int) : Int :=\n  %s\n\n", i, sh.size)
+		onames = append(onames, fmt.Sprintf("⟨netpollShrinkCond%d, netpollShrinkSize%d⟩", i, i))
+	}
+	s += "/-- the same statement in the other functions of connection.go (netpoll mode: read-timeout timer, event-loop onRead). -/\n"
+	s += "def netpollShrinks : List Shrink := [" + strings.Join(onames, ", ") + "]\n\n"
+	var sq []string
+	for _, u := range stray {
+		sq = append(sq, fmt.Sprintf("%q", u))
+	}
+	s += "/-- calls that discard / consume a `readBuffer` in the non-test files of pkg/network outside those statements and\noutside doRead's `ReadOnce` (file:function:method). -/\n"
+	s += "def strayBufferCalls : List String := [" + strings.Join(sq, ", ") + "]\n\n"
 	s += "/-- startReadLoop, `doRead` returned any other error: `c.Close(api.NoFlush, <event>)`, then `return`. -/\n"
 	s += "def closeOnErr (err : ErrKind) : CloseEv :=\n  " + closeFn + "\n\n"
 	s += "/-- doRead: size of the first allocation of the read buffer (tcp / unix). -/\n"
